@@ -727,6 +727,22 @@ GRIget_image_list(int32 file_id, gr_info_t *gr_ptr)
             if (elt_tag == DFTAG_CI || elt_tag == DFTAG_RI) {
                 if (elt_tag != DFTAG_NULL && elt_ref != DFREF_NONE) /* make certain we found an image */
                 { /* store the information about the image */
+                    /* The list was sized by the number of image elements in the file.  Several RIGs
+                       can name the same image (DFGRaddlut writes a RIG for the image written last) and
+                       a RIG can name an image that is not there, so there can be more entries than
+                       that: keep room for this one and for the RI8/CI8/II8 entries added below. */
+                    if (curr_image + 1 + (int)(nri8 + nci8 + nii8) > nimages) {
+                        int        bigger = 2 * nimages + 1;
+                        imginfo_t *tmp    = (imginfo_t *)realloc(img_info, (size_t)bigger * sizeof(imginfo_t));
+
+                        if (tmp == NULL) {
+                            free(img_info);
+                            HGOTO_ERROR(DFE_NOSPACE, FAIL);
+                        }
+                        memset(tmp + nimages, 0, (size_t)(bigger - nimages) * sizeof(imginfo_t));
+                        img_info = tmp;
+                        nimages  = bigger;
+                    }
                     Store_imginfo(&img_info[curr_image], DFTAG_RIG, find_ref, elt_tag, elt_ref);
                     img_info[curr_image].offset = Hoffset(file_id, elt_tag, elt_ref); /* store offset */
                     curr_image++;
